@@ -790,7 +790,12 @@ def check_case(ctx, case, r, fam_store):
         if hermitian and finite and not r['is_hermitian']:
             problems.append(('C10:is_hermitian', 'terms are Hermitian but H_MPO.is_hermitian() is False'))
         if (not hermitian) and herm_defect > 1e-3 * scale and r['is_hermitian']:
-            problems.append(('C10:is_hermitian', 'operator is not Hermitian (defect %.2e) but H_MPO.is_hermitian() is True' % herm_defect))
+            key_h = 'C10:is_hermitian'
+            if (not finite and (r.get('exp') or {}).get('exp') and r.get('mpo_max_range') not in (None, 'inf')):
+                # known: calc_H_MPO overwrites max_range = inf of the graph by the range of the coupling terms, and the window
+                # of is_equal for infinite MPOs is L + 2 * max_range sites
+                key_h = 'C10:calc_H_MPO:max_range-ignores-exponentially-decaying-terms'
+            problems.append((key_h, 'operator is not Hermitian (defect %.2e) but H_MPO.is_hermitian() is True' % herm_defect))
     # a nearest-neighbour Hamiltonian must have a bond form
     if 'no_bond' in r and 'onsite' in r:
         nn = not r['exp']['exp'] and not r['exp']['centered']
@@ -896,6 +901,13 @@ def main(ctx):
     if not ctx.proof.ok:
         nfam = int(nfam * 1.6)
     cases = []
+    replay = None
+    if ctx.replay_in:
+        import json
+        replay = json.load(open(ctx.replay_in)).get('input') or {}
+        if isinstance(replay.get('case'), dict):
+            cases.append(replay['case'])
+            nfam, per_class = 0, 0
     for c in common.corpus_cases('C10'):
         cases.append(c['case'])
     for fid in range(nfam):
@@ -905,7 +917,7 @@ def main(ctx):
     if err:
         ctx.fail('correspondence', 'cannot list tenpy.models: ' + err[-400:], None)
         models = []
-    pre = gen_predefined(rng, models, per_class)
+    pre = gen_predefined(rng, models, per_class) if per_class else []
     ctx.cov['predefined_model_classes'] = sorted(set('%s.%s' % (m, c) for m, c, _ in models if c))
     cases.extend(pre)
     # ---- implementation
